@@ -152,7 +152,7 @@ Definition op_markdown_html (req : sx) : sx :=
                            (negb (Z.eqb (z_of_sx (sx_nth req 1)) 1)) (str_of_sx (sx_nth req 4))).
 
 (* ---- C05 : (50 cfg textA) -> the hypotheses of the independence theorems, evaluated on A:
-        (stable_run4, closed_last, stable_run3, closed_run) ---- *)
+        (stable_run4, closed_last, stable_run3, closed_run, stable_run5, every line ends with its only newline) ---- *)
 Definition op_c05_flags (req : sx) : sx :=
   let cfg := pcfg_of (z_of_sx (sx_nth req 1)) in
   let A := doc_lines_of_str (str_of_sx (sx_nth req 2)) in
@@ -162,7 +162,9 @@ Definition op_c05_flags (req : sx) : sx :=
   SxL [b2z (stable_run4 (cfg_block cfg) rec (S (length A)) A 1 (mkPs true));
        b2z (closed_last (entries (tokenize_block (cfg_block cfg) (S f) A 1 (mkPs true))));
        b2z (stable_run3 (cfg_block cfg) rec (S (length A)) A 1 (mkPs true));
-       b2z (closed_run (cfg_block cfg) rec (S (length A)) A 1 (mkPs true))].
+       b2z (closed_run (cfg_block cfg) rec (S (length A)) A 1 (mkPs true));
+       b2z (stable_run5 (cfg_block cfg) rec (S (length A)) A 1 (mkPs true));
+       b2z (forallb (fun l => match rev l with 10 :: t => negb (mem 10 t) | _ => false end) A)].
 
 (* ---- C06 : (60 text) -> specification algorithm's rendering ---- *)
 Definition op_spec_emph (req : sx) : sx := sx_of_str (spec_emphasis (str_of_sx (sx_nth req 1))).
